@@ -29,6 +29,10 @@ lv_tag = z3.Function("lv_tag", I, I)
 digit = z3.Function("digit", I, I, I)
 is_long_sub = z3.Function("is_int_subclass", I, B)      # Py_TPFLAGS_LONG_SUBCLASS of the object's type
 fval = z3.Function("fval", I, z3.Float64())             # value of an exact float object
+is_list = z3.Function("is_exact_list", I, B)
+is_tuple = z3.Function("is_exact_tuple", I, B)
+seq_len = z3.Function("seq_len", I, I)                  # Py_SIZE of a list / tuple
+item = z3.Function("item", I, I, I)                     # identity of element i of a list / tuple
 pow2u = z3.Function("pow2", I, I)          # 2**n for n beyond what the C code computes itself
 generic = z3.Function("generic_result", I, I, I, I, I, B)   # generic_result(opcode, a, b, c, r): r = CPython's own result
 
@@ -133,6 +137,10 @@ class CExecPyObj(CExecL3):
             if path == "long_value.ob_digit":
                 self.use_rep(st, o)
                 return ("mem", Ptr(node_type(n), ("pydigits", o), z3.IntVal(0)))
+            if path == "ob_item":
+                # PyListObject.ob_item (PyObject **) / PyTupleObject.ob_item (PyObject *[1]): the element array
+                kind = "mem" if node_type(n).kind == "array" else "const"
+                return (kind, Ptr(node_type(n), ("pyitems", o), z3.IntVal(0)))
             raise OutOfSubset("object field %s" % path)
         return CExecL3.member_lval(self, st, n)
 
@@ -140,6 +148,14 @@ class CExecPyObj(CExecL3):
         return CExecL3.lval(self, st, n)
 
     def load(self, st, p, node):
+        if isinstance(p, Ptr) and isinstance(p.obj, tuple) and p.obj[0] == "pyitems":
+            o = p.obj[1]
+            st.path.append(seq_len(o) >= 0)
+            # memory safety of the direct element access (what boundscheck / wraparound must guarantee)
+            self.oblige(st, "ub", "oob_read.ob_item", z3.And(p.off >= 0, p.off < seq_len(o)), node)
+            r = item(o, p.off)
+            st.path.append(r >= 1)
+            return Ptr(parse_type("PyObject *"), "pyobj", r)
         if isinstance(p, Ptr) and isinstance(p.obj, tuple) and p.obj[0] == "pydigits":
             o = p.obj[1]
             nd = lv_tag(o) / 8
@@ -152,7 +168,7 @@ class CExecPyObj(CExecL3):
 
     def read_lval(self, st, lv, node):
         if lv[0] == "mem" and isinstance(lv[1], Ptr) and isinstance(lv[1].obj, tuple):
-            if lv[1].obj[0] == "pydigits" and node_type(node).kind == "array":
+            if lv[1].obj[0] in ("pydigits", "pyitems") and node_type(node).kind == "array":
                 return lv[1]
             return self.load(st, lv[1], node)
         return CExecL3.read_lval(self, st, lv, node)
@@ -171,6 +187,13 @@ class CExecPyObj(CExecL3):
             if tn == "global:PyFloat_Type":
                 return from_bool(is_float(oid), ty)
             raise OutOfSubset("Py_IS_TYPE against %s" % tn)
+        if name in ("PyList_GET_SIZE", "PyTuple_GET_SIZE", "Py_SIZE"):
+            o = self.oid(self.ev(st, argn[0]))
+            st.path.append(z3.And(seq_len(o) >= 0, seq_len(o) < 2 ** 62))
+            self.assumptions.add("%s(o) is the number of elements of the list/tuple (0 <= size, far below PY_SSIZE_T_MAX)" % name)
+            return CV(ty, seq_len(o))
+        if name.startswith("__Pyx_GetItemInt_Generic"):
+            return self.generic_call(st, "getitem", argn, n)
         if name == "Py_TYPE":
             o = self.oid(self.ev(st, argn[0]))
             return Ptr(ty, ("typeof", o), z3.IntVal(0))
@@ -284,7 +307,8 @@ class CExecPyObj(CExecL3):
     def generic_call(self, st, op, argn, n):
         """delegation to CPython's generic protocol: the result IS CPython's answer (assumed correct)"""
         args = [self.ev(st, a) for a in argn]
-        ids = [self.oid(a) if isinstance(a, Ptr) and a.obj == "pyobj" else z3.IntVal(0) for a in args]
+        ids = [self.oid(a) if isinstance(a, Ptr) and a.obj == "pyobj" else (a.t if isinstance(a, CV) and a.ty.is_int() else z3.IntVal(0))
+               for a in args]
         while len(ids) < 3:
             ids.append(z3.IntVal(0))
         r = self.obj(st, node_type(n), "generic")
